@@ -19,7 +19,7 @@ CLAIMS = {
         "text": "Bounded symbolic model checking of the real Node power code through the request API: (a) every "
         "sequence of n operations from the real initial state and (b) one operation from every pre-state of a written "
         "representation invariant followed by ticks until the node settles, with start-up/shut-down durations as "
-        "solver variables, compared step by step with a reference state machine; the path tree is exhausted.",
+        "solver variables, compared step by step with a reference state machine; the operations include, besides requests, ticks and pings in both directions, the software's and interfaces' own API (Service.start, Application.run, NIC.enable called directly), which must do nothing on a node that is not ON; the path tree is exhausted.",
         "note": "Bounds: durations 0..dmax, n_ops as in evidence.bounds; node types per tier. Trusted: CrossHair/z3, "
         "the logging stubs and format shim, the invariant used by the inductive harness (cross-checked by the bounded "
         "runs from the real initial state), the reference FSM.",
@@ -43,11 +43,10 @@ CLAIMS = {
         "text": "Engine S: real Link/NIC/SwitchPort objects, frame sizes and bandwidth as unbounded solver numbers, the "
         "receiver stubbed so that (under solver-chosen flags) it replies over the same link before returning and "
         "accepts or rejects; after every send current_load and the data actually carried are <= bandwidth, the load "
-        "is zero after pre_timestep, nothing crosses a link with a disabled end. Engine T: can_transmit_frame and "
+        "is zero after pre_timestep, nothing crosses a link with a disabled end; frames grow by solver-chosen amounts when the sender and the receiver stamp them (as the real Frame does); within one tick an end may be disabled and re-enabled (wired) or leave and re-join the channel (wireless) without the tick's budget being renewed; a harness with REAL ARP/ICMP frames and the bandwidth as the only solver value pins the frame model to the real serialisation. Engine T: can_transmit_frame and "
         "transmit_frame translated from source to FP64 and decided for all finite doubles (admission formula; load "
         "after accounting stays in [0,bw] with nested admitted traffic).",
-        "note": "Bounds: 2 top-level sends with nested replies to depth 2 (quick); FakeFrame instead of Frame (size "
-        "comes from pydantic-core's serializer); the wireless channel (AirSpace) is checked on two real "
+        "note": "Bounds: 2 top-level sends with nested replies to depth 2 (quick); FakeFrame instead of Frame in all but link_real_frames (size comes from pydantic-core's serializer; there the clock and the random ICMP identifier are stubbed to constants); the wireless channel (AirSpace) is checked on two real "
         "wireless routers with the same stubbing. Trusted: CrossHair/z3, py2smt translator (validated against the real Link on a grid each run).",
         "technique": "symbolic execution of the real code (CrossHair+z3) + AST-to-SMT translation of admission/accounting (z3 FP64), counterexamples replayed",
     },
@@ -58,7 +57,7 @@ CLAIMS = {
         "by PrimaiteGame.from_config, unmodified / misspelt at a depth / truncated, under every node power state and "
         "every service/application operating state: a request that does not reach its handler answers unreachable/"
         "failure and leaves Simulation.describe_state() bit-identical and sends no frame; (actions) every entry of a "
-        "generated action map is never 'unreachable' when its components exist, never reaches a handler when they do not.",
+        "generated action map is never 'unreachable' when its components exist, never reaches a handler when they do not; with a file or a whole folder deleted earlier in the episode, every request and action that still addresses it (other than restoring exactly it, or creation) is not answered success and changes nothing.",
         "note": "Bounds: one host of a 4-node (quick) / two topologies (thorough) scenario; leaves with structured "
         "payload arguments (user/session/terminal/nmap/ACL requests) are exercised through the action map only. Trusted: "
         "CrossHair/z3, describe_state() as the state observation, the leaf-wrapping recorder.",
@@ -83,7 +82,7 @@ CLAIMS = {
         "step() does not raise, returns a finite reward, terminated False, truncated == (steps >= M), advances the "
         "tick by one and appends exactly one history item with a documented status per agent; reset() yields tick 0, "
         "empty histories, zero rewards and an incremented episode counter, and the next episode obeys the same contract.",
-        "note": "Bounds: k=1 all actions, k=2 with six state-changing first actions (quick); k=2 with every second "
+        "note": "Bounds: k=1 all actions, k=2 with ten state-changing first actions (incl. removal of an application that shares its port key with other software) and one k=3 chain install/remove/any (quick); k=2 with every second "
         "action first, plus the shipped single-RL-agent scenario files with k=1 over their whole action map (thorough). "
         "Action indices are finite choices, so the solver's role is the exhaustive path enumeration and the truncation "
         "comparison for every M; reset() itself takes no symbolic input and is run untraced. Scripted agents use the "
@@ -94,7 +93,7 @@ CLAIMS = {
         "engine": "symex+py2smt",
         "text": "Leaf level: the real observation tree built by the from_config chain, evaluated on the real "
         "describe_state() dictionary in which every quantity a leaf reads is a solver value (every member of the real "
-        "enums, unbounded non-negative counts, listed/unlisted/None ACL fields, absent components); the result is "
+        "enums, unbounded non-negative counts, listed/unlisted/None ACL fields, absent components; observation configs listing exactly / more / fewer components than their num_* sizes); the result is "
         "checked against the real gymnasium space by a pure-Python membership walker, two observations in a row. "
         "Environment level: observations returned by reset/step for every action of the generated maps, nested and "
         "flattened, NMNE capture on/off, spaces equal across episodes. FP level: NIC traffic category and link "
@@ -111,7 +110,7 @@ CLAIMS = {
         "values (every member of the operating-state and health enums, actual and visible health independently, "
         "unbounded counts, interface flags, ACL slot contents through add_rule, link loads, NMNE counts over two "
         "steps) and every leaf is compared with the documented encoding computed from the objects; scan-gated and "
-        "true-health configurations; non-ON nodes and padding slots read as defaults; slot -> component assignment.",
+        "true-health configurations; non-ON nodes and padding slots read as defaults; slot -> component assignment; self-composition over two consecutive observations: a host observed ON with non-default values and then going down reads exactly like the same host going down without that history.",
         "note": "Bounds: one family symbolic at a time (service / application / file / folder / power+counters / ACL / "
         "link / NMNE), thresholds of the generated scenario, 4 observed ACL slots, 9 link loads. Firewall and user-session "
         "leaves are not covered. Trusted: CrossHair/z3, the reference encodings (from the observation classes' docstrings).",
@@ -126,7 +125,7 @@ CLAIMS = {
         "integer (every receiving interface and routing hop lowers it, nothing is handed on with TTL < 1, large TTL is "
         "delivered); ping between every ordered host pair under a solver-chosen toggle (interface down, node off, "
         "ACL deny, switch off) agrees with an independent reachability model and is never handed to a third host's "
-        "software; an interface hands a frame to its node only if it is addressed to it.",
+        "software; an interface hands a frame to its node only if it is addressed to it; on a LAN with two routers every unicast frame a host emits for an off-subnet address is addressed to its configured default gateway in every ARP-cache state (0-2 warm-up rounds, either side first), so an exchange the gateway refuses does not complete.",
         "note": "Bounds: N=3 (quick) / 4 (thorough) routes; non-contiguous masks excluded (stdlib raises); TTL -1..70; "
         "3 hosts, 9 toggles, cold/warm ARP. Termination is argued from the TTL measure (strictly decreasing, checked), "
         "not run. Wireless receive paths are not covered. Trusted: CrossHair/z3, the ipaddress BV model (validated "
@@ -140,8 +139,7 @@ CLAIMS = {
         "Y's ingress list both permit, consults X's list first, and forwards when both permit (all 64 verdict "
         "combinations x 6 zone pairs). End to end: two copies of a generated host-router-server scenario in one path, "
         "the attacker runs a solver-chosen operation from a 10-item repertoire in one of them; with a solver-chosen "
-        "block in place (ACL any-any / exact source / wildcard range / per-protocol rules, router port down, victim "
-        "interface down, victim off, router off; before or after a warm-up exchange) the victim's identifier-"
+        "block in place (ACL any-any / exact source / wildcard range / per-protocol rules, router port down, victim interface down, victim off, router off, and router / switch / victim powered off with a multi-step shutdown during which their port-enable API is called; before or after a warm-up exchange) the victim's identifier-"
         "normalised describe_state() after 3 ticks is identical in both; a twin shows an unblocked attack is visible.",
         "note": "Bounds: one topology; the claim 'all cross-host effects travel as frames' only for the repertoire "
         "exercised; wireless and switched-only topologies not covered; ACL list logic itself is C07. The end-to-end "
@@ -150,13 +148,12 @@ CLAIMS = {
         "technique": TECH_S,
     },
     "C04": {
-        "text": "Self-composition on the real environment inside one symbolic path: (a) a used environment (every action "
-        "of the map as dirtying prefix, then reset(seed)) and a freshly constructed one take the same suffix; (b) "
+        "text": "Self-composition on the real environment inside one symbolic path: (a) a used environment (every action of the map as dirtying prefix, then reset(seed), the seed a solver choice from {5, 0, 1, 2^31-1} in dedicated jobs) and a freshly constructed one take the same suffix; (b) "
         "environment A alone vs A with a differently configured environment B constructed / stepped / reset / closed "
         "at a solver-chosen interleaving position; compared step by step: observation, reward, truncation, every "
         "agent's action and response status, identifier-normalised Simulation.describe_state(). (c) identity walk "
         "over the object graphs of two games built from the same scenario: no shared mutable container or component.",
-        "note": "Bounds: k=1 (quick) / 2 (thorough) dirtying actions, 2-step suffix; generated scenarios, plus the shipped "
+        "note": "Bounds: k=1 (quick) / 2 (thorough) dirtying actions, 4-step suffix; generated scenarios, plus the shipped "
         "episode-scheduled directories (each episode of a long-lived environment vs a fresh build, up to 11 resets). All inputs are finite choices - the solver's "
         "role is the exhaustive enumeration. One recorded finding (class-level NMNE configuration) is excluded by its "
         "predicate and re-demonstrated on every run. Trusted: CrossHair/z3, identifier normalisation.",
@@ -221,16 +218,14 @@ CLAIMS = {
     },
     "C20": {
         "text": "Inventory conformance over a generated scenario family: the parsed scenario dict of a host-router-server "
-        "scenario is assembled from 11 solver-chosen presence bits (users, extra folder/files, static and default "
-        "route, a second ACL rule at a solver-chosen position, listen ports, fixing-duration option, simulation "
-        "defaults, a node declared OFF, explicit node durations, re-declared pre-installed software), bandwidth and a "
+        "scenario is assembled from 12 solver-chosen presence bits (users, extra folder/files, static and default route, a second ACL rule at a solver-chosen position, listen ports, fixing-duration option, simulation defaults, a node declared OFF, explicit node durations, re-declared pre-installed software, a dns-client declared with its own server differing from the host's), bandwidth and a "
         "key-order permutation of the mappings the loader iterates; the real PrimaiteGame.from_config builds it and an "
         "inventory of the built object graph (nodes, addresses, links+bandwidth, routes, ACL rules at positions, "
         "software with options and state, users, folders/files, agents, durations) is compared with an inventory "
         "derived independently from the dict; the permuted scenario builds an identical simulation; the shipped "
         "scenario files with an RL agent go through the same comparison.",
         "note": "The claim starts at the parsed dict (PyYAML's C parser is outside the encoding); all inputs are finite "
-        "choices - the solver enumerates the combinations (4 bits coupled pairwise per quick job, all 2^11 in thorough). "
+        "choices - the solver enumerates the combinations (5 bits coupled per quick job, 2^11 combinations in thorough). "
         "Episode-list schedules and plugin node types are not covered. Trusted: CrossHair/z3, the reference inventory.",
         "technique": TECH_S,
     },
@@ -258,8 +253,7 @@ CLAIMS = {
         "connected real nodes against a reference session model written from the statement: an inductive step from "
         "every pre-state of a written representation invariant (up to 3 remote sessions plus a local session, 3 "
         "accounts with solver-chosen admin/disabled flags, unbounded idle times, time-outs, session limit and clock "
-        "jump, every node and service operating-state member, 3 desynchronised client/server views, 45 (quick) / 85 "
-        "(thorough) operations through the request API) and all operation sequences of length 2-4 from the real "
+        "jump, every node and service operating-state member, 3 desynchronised client/server views, 46 (quick) / 86 (thorough) operations through the request API, incl. a remote command sent by the server node towards the client node, where it holds no session) and all operation sequences of length 2-4 from the real "
         "initial state; compared after every operation: describe_state() of the session manager, the users table, "
         "the enabled-admin invariant, the session limit, last-active steps, the server terminal's connection table, "
         "the response status and the effect of the remote command (a folder created on the target).",
